@@ -108,6 +108,11 @@ impl<R: Read + Seek> ReadBox<&mut R> for Hev1Box {
                 "hev1 box contains a box with a larger size than it",
             ));
         }
+        if s == 0 {
+            return Err(Error::InvalidData(
+                "hev1 box contains a box with size 0",
+            ));
+        }
         if name == BoxType::HvcCBox {
             let hvcc = HvcCBox::read_box(reader, s)?;
 
